@@ -22,10 +22,12 @@ StringsDef == <<
   S(5, FALSE, FALSE, FALSE, TRUE)     \* 11  r5            (in no index)
 >>
 
-K(vid, null, meta, url) == [vid |-> vid, null |-> null, meta |-> meta, url |-> url]
+\* dep: the entry carries `deprecated: true` - purely informational, it takes no part in loading, Get or locking
+K(vid, null, meta, url) == [vid |-> vid, null |-> null, meta |-> meta, url |-> url, dep |-> FALSE]
+KD(vid) == [vid |-> vid, null |-> FALSE, meta |-> TRUE, url |-> TRUE, dep |-> TRUE]
 
 KindsDef == <<
-  K(1, FALSE, TRUE, TRUE),   K(2, FALSE, TRUE, TRUE),  K(3, FALSE, TRUE, TRUE),
+  K(1, FALSE, TRUE, TRUE),   K(2, FALSE, TRUE, TRUE),  KD(3),                    \* 3: r3, marked deprecated
   K(4, FALSE, TRUE, TRUE),   K(5, FALSE, TRUE, TRUE),  K(6, FALSE, TRUE, TRUE),
   K(7, FALSE, TRUE, TRUE),
   K(8, FALSE, TRUE, TRUE),                              \*  8 invalid version string
